@@ -31,6 +31,10 @@ type loopFacts struct {
 	initAssign        string
 	queryFrom         string
 	queryTo           string
+	queryCallee       string
+	queryContext      string
+	queryLhs          string
+	collectOver       string
 	contTouchesCursor bool
 	collectTouches    bool
 	handleAborts      bool
@@ -187,6 +191,17 @@ func (f *loopFacts) classify(body []ast.Stmt) {
 				kind = "computeEnding"
 			case strings.Contains(rhs, ".FilterLogs("):
 				kind = "filterLogs"
+				if call, ok := s.Rhs[0].(*ast.CallExpr); ok {
+					f.queryCallee = c.Src(call.Fun)
+					if len(call.Args) > 0 {
+						f.queryContext = c.Src(call.Args[0])
+					}
+				}
+				var lhsParts []string
+				for _, l := range s.Lhs {
+					lhsParts = append(lhsParts, c.Src(l))
+				}
+				f.queryLhs = strings.Join(lhsParts, ", ")
 				ast.Inspect(s.Rhs[0], func(x ast.Node) bool {
 					if kv, ok := x.(*ast.KeyValueExpr); ok {
 						switch c.Src(kv.Key) {
@@ -234,6 +249,7 @@ func (f *loopFacts) classify(body []ast.Stmt) {
 				kind = "handleEvents"
 			}
 		case *ast.RangeStmt:
+			f.collectOver = c.Src(s.X)
 			if c.Src(s.X) == "ethLogs" {
 				f.collectTouches = f.touchesCursor(s.Body) || hasOuterExit(c, s.Body)
 				kind = "collectEvents"
@@ -393,6 +409,14 @@ func init() {
 		if f.cursorVar == "" {
 			f.cursorVar = "?"
 		}
+		clientBinding := ""
+		if start != nil {
+			for _, st := range start.Body.List {
+				if as, ok := st.(*ast.AssignStmt); ok && len(as.Lhs) > 0 && c.Src(as.Lhs[0]) == "ethClient" {
+					clientBinding = c.Src(as)
+				}
+			}
+		}
 		writesInStart := 0
 		if start != nil {
 			writesInStart = f.writeSites(start.Body)
@@ -417,6 +441,9 @@ func init() {
 		fmt.Fprintf(&b, "def guardCond : String := %s\n", LeanStr(f.guardCond))
 		fmt.Fprintf(&b, "def initCond : String := %s\ndef initAssign : String := %s\n", LeanStr(f.initCond), LeanStr(f.initAssign))
 		fmt.Fprintf(&b, "def queryFrom : String := %s\ndef queryTo : String := %s\n", LeanStr(f.queryFrom), LeanStr(f.queryTo))
+		fmt.Fprintf(&b, "/-- the log query: callee, its context argument, what its results are bound to, what the event loop ranges over,\n    and how the client was obtained (a wrapper between the loop and the ethclient call is not classified as the query) -/\n")
+		fmt.Fprintf(&b, "def queryCallee : String := %s\ndef queryContext : String := %s\ndef queryLhs : String := %s\ndef collectOver : String := %s\ndef ethClientBinding : String := %s\n",
+			LeanStr(f.queryCallee), LeanStr(f.queryContext), LeanStr(f.queryLhs), LeanStr(f.collectOver), LeanStr(clientBinding))
 		fmt.Fprintf(&b, "/-- the `continue` branch after a failed FilterLogs assigns the cursor or writes LevelDB -/\ndef continueTouchesCursor : Bool := %s\n", leanBool(f.contTouchesCursor))
 		fmt.Fprintf(&b, "def collectTouchesCursorOrExits : Bool := %s\n", leanBool(f.collectTouches))
 		fmt.Fprintf(&b, "def handleGuard : String := %s\n", LeanStr(f.handleGuard))
